@@ -154,6 +154,9 @@ def pool():
     P['diag_func'] = 'void alpha() {}\nvoid Alpha() {}\nvoid ALPHA() {}\nvoid main() { alphA(); }\n'
     P['diag_cpp'] = '#define ONE 1\n#define one 1\n#if One\n#endif\nvoid main() {}\n'
     P['prototypes'] = 'char acc;\nvoid pa();\nvoid pb() { acc = 1; }\nvoid pa() { acc = 2; }\nvoid pc() { acc = 3; }\nvoid pd() { acc = 4; }\nvoid main() { pa(); pb(); pc(); pd(); }\n'
+    P['ptr_table_mixed'] = 'const char one[2] = {1, 2};\nconst char *t1[] = {one, "s1", one, "s2", "s3"};\nconst char *t2[] = {"u1", one, "u2"};\nchar *gp;\nvoid main() { gp = "late"; }\n'
+    P['proto_only_calls'] = 'void pa(); void pb(); void pc();\nchar c;\nvoid main() { pa(); pb(); pc(); }\n'
+    P['many_errors'] = 'char c;\nvoid main() { u1 = 1; u2 = 2; u3 = 3; }\n'
     P['superchip'] = 'superchip char s1; superchip short s2; char z1;\nvoid main() { s1 = z1; s2 = s1; }\n'
     return P
 
